@@ -228,4 +228,167 @@ theorem basedOn_nodup (tbl : CLookup) (b : String) (hu : UniqueKeys tbl) : (base
   unfold basedOn UniqueKeys at *
   exact List.Nodup.sublist (List.Sublist.map _ (List.filter_sublist)) hu
 
+/-! ### broken documents fail at load, end to end -/
+
+/-- An element of the ParameterSet whose type reference names no loaded parameter type makes the load fail. -/
+theorem dangling_type_ref_rejected_doc (ens : Option String) (root set el : XmlNode) (types : List (String × LPType))
+    (name tn : String)
+    (hset : findFirst ens [step "TelemetryMetaData", step "ParameterSet"] root = some set) (hel : el ∈ set.elems)
+    (h1 : el.attr? "name" = some name) (h2 : el.attr? "parameterTypeRef" = some tn)
+    (h3 : types.any (·.1 == tn) = false) : ∃ e, loadParameterSet ens root types = .error e := by
+  unfold loadParameterSet
+  simp only [hset]
+  exact foldlM_fails _ _ el hel (fun acc => ⟨.other, by
+    simp [paramSetStep, unknown_type_ref_rejected ens types el name tn h1 h2 h3]⟩) []
+
+/-- A container whose `BaseContainer` names no (or more than one) `SequenceContainer` cannot be parsed, whatever has
+    been parsed before. -/
+theorem dangling_base_container_fails (ens : Option String) (root : XmlNode) (params : List (String × LParam))
+    (fuel : Nat) (lookup : CLookup) (x bc : XmlNode) (ref : String)
+    (hbc : findFirst ens [step "BaseContainer"] x = some bc) (href : bc.attr? "containerRef" = some ref)
+    (hdang : ∃ e, getContainerElement ens root ref = .error e) :
+    ∃ e, loadContainer ens root params fuel lookup x = .error e := by
+  cases fuel with
+  | zero => exact ⟨.other, rfl⟩
+  | succ fuel =>
+    obtain ⟨e0, he0⟩ := hdang
+    have hb : ∃ e, loadBaseWith ens root (loadContainer ens root params fuel) lookup x = .error e := by
+      unfold loadBaseWith
+      simp only [hbc]
+      cases loadRestriction ens bc with
+      | error e => exact ⟨e, rfl⟩
+      | ok crit => simp [XmlNode.attr!, href, he0]
+    obtain ⟨e, he⟩ := hb
+    exact ⟨e, by simp only [loadContainer, he]⟩
+
+/-- An entry that refers to a parameter which was not declared makes the container unparsable. -/
+theorem dangling_parameter_entry_fails (ens : Option String) (root : XmlNode) (params : List (String × LParam))
+    (fuel : Nat) (lookup : CLookup) (x el entry : XmlNode) (pn : String)
+    (hel : findFirst ens [step "EntryList"] x = some el) (hentry : entry ∈ el.elems)
+    (htag : entry.tag = "ParameterRefEntry") (href : entry.attr? "parameterRef" = some pn)
+    (hdang : params.any (·.1 == pn) = false) :
+    ∃ e, loadContainer ens root params fuel lookup x = .error e := by
+  cases fuel with
+  | zero => exact ⟨.other, rfl⟩
+  | succ fuel =>
+    simp only [loadContainer]
+    cases loadBaseWith ens root (loadContainer ens root params fuel) lookup x with
+    | error e => exact ⟨e, rfl⟩
+    | ok r =>
+      obtain ⟨bn, crit, lk⟩ := r
+      simp only [hel]
+      obtain ⟨e, he⟩ := foldlM_fails (loadEntryWith ens root params (loadContainer ens root params fuel)) el.elems entry
+        hentry (fun acc => ⟨.other, by simp [loadEntryWith, htag, XmlNode.attr!, href, hdang]⟩) ([], lk)
+      exact ⟨e, by simp only [he]⟩
+
+/-- … and a document containing such a container (as a child of the ContainerSet) is rejected at load. -/
+theorem unparsable_container_rejected_doc (ens : Option String) (root set x : XmlNode) (params : List (String × LParam))
+    (hset : findFirst ens [step "TelemetryMetaData", step "ContainerSet"] root = some set) (hx : x ∈ set.elems)
+    (hfail : ∀ lookup, ∃ e, loadContainer ens root params FUEL lookup x = .error e) :
+    ∃ e, loadContainerSet ens root params = .error e := by
+  unfold loadContainerSet
+  simp only [hset]
+  obtain ⟨e, he⟩ := foldlM_fails (containerSetStep ens root params) set.elems x hx
+    (fun lk => by
+      obtain ⟨e, he⟩ := hfail lk
+      exact ⟨e, by simp only [containerSetStep, he]⟩) []
+  exact ⟨e, by simp only [he]⟩
+
+theorem loadDoc_error_is_load_error (ctx : NsCtx) (ens : Option String) (rootName : String) (root : XmlNode)
+    (he : ctx.expected = .ok ens) (e : Err) (h : loadDoc ens root = .error e) : loadXtce ctx rootName root = .error e := by
+  unfold loadXtce
+  simp only [he, h, bind, Except.bind]
+
+/-- Hence `from_xtce` fails: a failure of the container set (or of an earlier set) is a failure of the load. -/
+theorem container_set_failure_is_load_failure (ctx : NsCtx) (ens : Option String) (rootName : String) (root : XmlNode)
+    (he : ctx.expected = .ok ens)
+    (h : ∀ types params, loadParameterTypeSet ens root = .ok types → loadParameterSet ens root types = .ok params →
+      ∃ e, loadContainerSet ens root params = .error e) :
+    ∃ e, loadXtce ctx rootName root = .error e := by
+  have hd : ∃ e, loadDoc ens root = .error e := by
+    unfold loadDoc
+    cases ht : loadParameterTypeSet ens root with
+    | error e => exact ⟨e, rfl⟩
+    | ok types =>
+      simp only
+      cases hp : loadParameterSet ens root types with
+      | error e => exact ⟨e, rfl⟩
+      | ok params =>
+        simp only
+        obtain ⟨e, hc⟩ := h types params ht hp
+        exact ⟨e, by simp only [hc]⟩
+  obtain ⟨e, hd⟩ := hd
+  exact ⟨e, loadDoc_error_is_load_error ctx ens rootName root he e hd⟩
+
+/-- A dangling parameter type reference is a load failure. -/
+theorem dangling_type_ref_is_load_failure (ctx : NsCtx) (ens : Option String) (rootName : String) (root set el : XmlNode)
+    (name tn : String) (he : ctx.expected = .ok ens)
+    (hset : findFirst ens [step "TelemetryMetaData", step "ParameterSet"] root = some set) (hel : el ∈ set.elems)
+    (h1 : el.attr? "name" = some name) (h2 : el.attr? "parameterTypeRef" = some tn)
+    (h3 : ∀ types, loadParameterTypeSet ens root = .ok types → types.any (·.1 == tn) = false) :
+    ∃ e, loadXtce ctx rootName root = .error e := by
+  have hd : ∃ e, loadDoc ens root = .error e := by
+    unfold loadDoc
+    cases ht : loadParameterTypeSet ens root with
+    | error e => exact ⟨e, rfl⟩
+    | ok types =>
+      simp only
+      obtain ⟨e, hp⟩ := dangling_type_ref_rejected_doc ens root set el types name tn hset hel h1 h2 (h3 types ht)
+      exact ⟨e, by simp only [hp]⟩
+  obtain ⟨e, hd⟩ := hd
+  exact ⟨e, loadDoc_error_is_load_error ctx ens rootName root he e hd⟩
+
+/-- **A `BaseContainer` reference to a container that does not exist is a load failure** (not a decode-time one). -/
+theorem dangling_base_is_load_failure (ctx : NsCtx) (ens : Option String) (rootName : String) (root set x bc : XmlNode)
+    (ref : String) (he : ctx.expected = .ok ens)
+    (hset : findFirst ens [step "TelemetryMetaData", step "ContainerSet"] root = some set) (hx : x ∈ set.elems)
+    (hbc : findFirst ens [step "BaseContainer"] x = some bc) (href : bc.attr? "containerRef" = some ref)
+    (hdang : findAll ens [{ tag := "SequenceContainer", nameEq := some ref }] set = []) :
+    ∃ e, loadXtce ctx rootName root = .error e := by
+  have hg : ∃ e, getContainerElement ens root ref = .error e := ⟨.value, by simp [getContainerElement, hset, hdang]⟩
+  exact container_set_failure_is_load_failure ctx ens rootName root he (fun _ params _ _ =>
+    unparsable_container_rejected_doc ens root set x params hset hx
+      (fun lookup => dangling_base_container_fails ens root params FUEL lookup x bc ref hbc href hg))
+
+/-- **An entry referring to an undeclared parameter is a load failure.** -/
+theorem dangling_parameter_entry_is_load_failure (ctx : NsCtx) (ens : Option String) (rootName : String)
+    (root set x el entry : XmlNode) (pn : String) (he : ctx.expected = .ok ens)
+    (hset : findFirst ens [step "TelemetryMetaData", step "ContainerSet"] root = some set) (hx : x ∈ set.elems)
+    (hel : findFirst ens [step "EntryList"] x = some el) (hentry : entry ∈ el.elems)
+    (htag : entry.tag = "ParameterRefEntry") (href : entry.attr? "parameterRef" = some pn)
+    (hdang : ∀ types params, loadParameterTypeSet ens root = .ok types → loadParameterSet ens root types = .ok params →
+      params.any (·.1 == pn) = false) :
+    ∃ e, loadXtce ctx rootName root = .error e :=
+  container_set_failure_is_load_failure ctx ens rootName root he (fun types params ht hp =>
+    unparsable_container_rejected_doc ens root set x params hset hx
+      (fun lookup => dangling_parameter_entry_fails ens root params FUEL lookup x el entry pn hel hentry htag href
+        (hdang types params ht hp)))
+
+/-- Non-vacuity: a concrete document meeting every premise of `dangling_base_is_load_failure`. -/
+def danglingDoc : XmlNode :=
+  .elem none "SpaceSystem" [] none [
+    .elem none "TelemetryMetaData" [] none [
+      .elem none "ContainerSet" [] none [
+        .elem none "SequenceContainer" [("name", "A")] none [
+          .elem none "BaseContainer" [("containerRef", "NOPE")] none [],
+          .elem none "EntryList" [] none []]]]]
+
+example : ∃ e, loadXtce { nsPrefix := none, nsmap := [] } "A" danglingDoc = .error e := by
+  refine dangling_base_is_load_failure _ none "A" danglingDoc
+    (.elem none "ContainerSet" [] none [
+        .elem none "SequenceContainer" [("name", "A")] none [
+          .elem none "BaseContainer" [("containerRef", "NOPE")] none [],
+          .elem none "EntryList" [] none []]])
+    (.elem none "SequenceContainer" [("name", "A")] none [
+          .elem none "BaseContainer" [("containerRef", "NOPE")] none [],
+          .elem none "EntryList" [] none []])
+    (.elem none "BaseContainer" [("containerRef", "NOPE")] none []) "NOPE" ?_ ?_ ?_ ?_ ?_ ?_
+  · simp [NsCtx.expected, List.find?]
+  · simp [danglingDoc, findFirst, findAll, XmlNode.kids, Step.matches, step, XmlNode.isElem, XmlNode.tag, XmlNode.ns]
+  · simp [XmlNode.elems, XmlNode.kids, XmlNode.isElem]
+  · simp [findFirst, findAll, XmlNode.kids, Step.matches, step, XmlNode.isElem, XmlNode.tag, XmlNode.ns]
+  · simp [XmlNode.attr?, XmlNode.attrs, List.find?]
+  · simp [findAll, XmlNode.kids, Step.matches, XmlNode.isElem, XmlNode.tag, XmlNode.ns, XmlNode.attr?, XmlNode.attrs,
+      List.find?]
+
 end Spp.C17
